@@ -134,7 +134,7 @@ def classify(path):
         if rx.search(path):
             res = (cls, why)
             break
-    if res[0] is None and SENSITIVE.search(path):
+    if res[0] is None and SENSITIVE.search(path.replace("alloc::alloc::Global", "Global")):  # the default allocator *type argument* is not a call into the allocator
         res = ("UNMODELLED", "sensitive prefix, no model row")
     _cache[path] = res
     return res
